@@ -39,7 +39,7 @@ ASSUMPTIONS = hprop.COMMON_ASSUMPTIONS + [
     "the 'leaves within one step of arriving' clause is asserted when the target activity is enterable for the vehicle (plug installed and of its energy type)",
     "distances are HIVE's own link-traversal distances (a split link is re-measured by great-circle distance)",
 ]
-FLOORS = {"quick": {"journey_steps": 5000, "flag:split_link": 300, "flag:moved": 100}, "thorough": {"journey_steps": 100000}}
+FLOORS = {"quick": {"journey_steps": 5000, "flag:split_link": 150, "flag:moved": 25}, "thorough": {"journey_steps": 100000}}
 
 CAP = 400  # steps followed per journey
 DT = st.sampled_from([1, 2, 5, 7, 15, 30, 45, 60, 90, 120, 300, 900, 1800])
